@@ -252,7 +252,6 @@ func (c *Ctx) nneighIsLen() bool {
 // branch, or (connecting branch) write the constants (0 | parameters, NIL_SUPPORT, NIL_PVALUE).
 func (c *Ctx) transferForms(fi *FuncInfo, name string, connectingConst bool) {
 	info := fi.Pkg.TypesInfo
-	env := c.newLFEnv(info, fi.Decl.Body)
 	type rec struct {
 		field string
 		p     *poly
@@ -260,17 +259,44 @@ func (c *Ctx) transferForms(fi *FuncInfo, name string, connectingConst bool) {
 	}
 	byRecv := map[string][]rec{}
 	var order []string
-	for _, f := range []string{"length", "support", "pvalue"} {
-		for _, sc := range c.setterCalls(info, fi.Decl.Body, f, env.o) {
-			p, err := env.fold(sc.arg)
-			if err != nil {
-				c.Undecided("LF", name+"/"+sc.recv+".set-"+f, sc.call.Pos(), err.Error())
+	// the function and the unexported helpers of its package it calls (an extracted "move this
+	// branch under the new node" step keeps its three setter calls together in the helper)
+	units := []*FuncInfo{fi}
+	seenU := map[*types.Func]bool{fi.Obj: true}
+	for i := 0; i < len(units) && i < 6; i++ {
+		for _, call := range callsIn(units[i].Decl.Body, true) {
+			g := calleeOf(units[i].Pkg.TypesInfo, call)
+			if g == nil || seenU[g] || g.Exported() || g.Pkg() != fi.Obj.Pkg() {
 				continue
 			}
-			if _, ok := byRecv[sc.recv]; !ok {
-				order = append(order, sc.recv)
+			if gi := c.FuncOfObj(g); gi != nil && gi.Decl.Body != nil {
+				seenU[g] = true
+				units = append(units, gi)
 			}
-			byRecv[sc.recv] = append(byRecv[sc.recv], rec{f, p, sc.call})
+		}
+	}
+	for ui, u := range units {
+		uinfo := u.Pkg.TypesInfo
+		env := c.newLFEnv(uinfo, u.Decl.Body)
+		prefix := ""
+		if ui > 0 {
+			prefix = u.Obj.Name() + ":"
+		}
+		for _, f := range []string{"length", "support", "pvalue"} {
+			for _, sc := range c.setterCalls(uinfo, u.Decl.Body, f, env.o) {
+				p, err := env.fold(sc.arg)
+				if err != nil {
+					if ui == 0 {
+						c.Undecided("LF", name+"/"+sc.recv+".set-"+f, sc.call.Pos(), err.Error())
+					}
+					continue
+				}
+				r := prefix + sc.recv
+				if _, ok := byRecv[r]; !ok {
+					order = append(order, r)
+				}
+				byRecv[r] = append(byRecv[r], rec{f, p, sc.call})
+			}
 		}
 	}
 	one := big.NewRat(1, 1)
